@@ -27,6 +27,27 @@ func zzC15_exif() {
 	zzReached("end")
 }
 
+// an entry with an arbitrary field type (valid, reserved or out of range: every value below 32 and three large ones)
+// under every level: rejected entries are logged through the tag's formatter
+func zzC15_types_N() int { return 3 }
+func zzC15_types() {
+	id := []uint16{0x0112, 0x014a, 0x010f}[zzPart()]
+	t := zzNewTiff(8+2+2*12+4+16, false, 8)
+	t.dir(8, 2, 0)
+	typ := zzU16("typ")
+	zzAssume(typ < 32 || typ == 0xff || typ == 0x100 || typ == 0xffff)
+	typ = uint16(zzConc(uint64(typ), 40))
+	t.ent(8, 0, id, typ, 1, 38)
+	t.entShort(8, 1, 0x0100, zzU16("w"))
+	t.bytes(38, zzBytes("v", 16))
+	a, ea := DecodeTiff(zzReaderOf(t.b))
+	SetLogger(io.Discard, zzLevel())
+	b, eb := DecodeTiff(zzReaderOf(t.b))
+	zzAssert((ea == nil) == (eb == nil), "the log level does not change the error")
+	zzAssert(a.Orientation == b.Orientation && a.Make == b.Make && a.ImageWidth == b.ImageWidth, "the log level does not change the decoded fields")
+	zzReached("end")
+}
+
 // CR3: moov/uuid/{CNCV, CTBO with arbitrary count and items, CMT1} under every level
 func zzC15_cr3() {
 	b := make([]byte, 0, 300)
